@@ -131,7 +131,7 @@ impl Acc {
                 self.violations.push((c.to_json(), violation_json(x)));
             }
         }
-        if self.samples.len() < 2 && v.stats.commits > 0 && !v.issued.is_empty() {
+        if self.samples.len() < 2 && v.stats.commits > 0 && (!v.issued.is_empty() || !v.extra_out.is_null()) {
             let steps: Vec<Value> = v.issued.iter().take(14).map(|s| s.to_json()).collect();
             self.samples.push(json!({
                 "seed": case.seed.to_string(), "pagesize": case.pagesize, "steps_total": v.issued.len(),
